@@ -25,6 +25,13 @@ CHECKS = {
         note="Trusted: CPython ast; the seed types of cell/positions/matrices (documented conventions of PhonopyAtoms and the Supercell/Primitive docstrings). Unknown operands type to unknown and are never reported.",
         ref="DESIGN.md §3 C04",
     ),
+    "C06": dict(
+        technique="static analysis: element-wise symbolic execution (clang-14 JSON AST -> sympy closed form of a generic array element, reductions as Sum) of the forward kernel's per-image contribution and of the inverse kernel; coefficient extraction and trigonometric identity checks; open-term comparison of the two Python references; structural pairing rule for the Smith-normal-form enumeration of commensurate points",
+        level="other",
+        text="Decides that the inverse transform is, term by term, the counterpart of the forward one, which is what makes FC -> D(q_k) -> FC the identity on translationally invariant force constants: it sums over exactly N = num_satom/num_patom points; it multiplies D_k by the complex conjugate of the forward phase factor, averaged over the same shortest-vector images of the same (supercell atom, primitive atom) pair; it takes the real part of D e^{i phi}; it multiplies by sqrt(m_i m_j')/N where the forward kernel divides by sqrt(m_i m_j); the Python references do the same; the integer commensurate points run once over range(D0) x range(D1) x range(D2) with each index scaled by the other two Smith-normal-form entries. Does not decide that the enumerated points are distinct modulo reciprocal lattice vectors, numeric equality of a round trip, or Phonopy.ph2ph.",
+        note="Trusted: clang-14 JSON AST, sympy (cos(-x) = cos(x) folding is accounted for by deciding phase sign and Re/Im combination jointly).",
+        ref="DESIGN.md §3 C06",
+    ),
     "C08": dict(
         technique="static analysis: element-wise symbolic execution of the NAC kernels' loop nests over the clang-14 JSON AST (literal-bound loops unrolled, size-bound loops run once for a generic index, array cells as patterns, callees inlined) giving closed sympy forms of a generic array element; homogeneity tests by substitution (direction -> s direction, Born -> s Born); who-writes and subscript-dependence rules; open-term comparison of the Python fallback with the same closed form",
         level="other",
@@ -122,7 +129,6 @@ NOT_APPLICABLE = {
     "C01": "exact recovery of force constants quantifies over space groups/supercells and the rank of a pseudo-inverse; no clause is visible in code shape beyond kernel ABI/bounds (decided under C13)",
     "C02": "equality with the lattice Fourier sum is a relation between two loop nests over runtime arrays; comparing them is symbolic execution, outside static analysis (structural fragments are decided under C13/C17/C03)",
     "C05": "completeness of the 65-point search window is a theorem about lattices, not a shape of the code; bounded-write and sparse/dense agreement fragments are under C13",
-    "C06": "losslessness of FC<->D(q) and the |det S| count are numerical/number-theoretic statements about loop nests",
     "C07": "projection/idempotence and compact==full are relations over all arrays; the defect class depends on which index pairs coincide at run time",
 }
 
